@@ -8,6 +8,8 @@
 (* performs inside one callback (loop header evaluation, binding and unbinding the loop        *)
 (* variable) are silent steps, enabled only in those sub-states.  One verdict line per case:   *)
 (* the machine's outcome (the oracle) and where, if anywhere, the trace left the machine.      *)
+(* A case names the directory of its script twice: base (absolute) and rawbase (as spelled in  *)
+(* the path given to load(), possibly relative to the process working directory).              *)
 EXTENDS BBSerialize, Json, IOUtils
 Cases == JsonDeserialize(IOEnv.CASE_FILE)
 AllFiles == LET RECURSIVE F(_) F(i) == IF i > Len(Cases) THEN <<>> ELSE Cases[i].files \o F(i + 1) IN F(1)
@@ -18,7 +20,7 @@ VARIABLES k, l, S, bad        \* case, next event, machine state, first mismatch
 vars == <<k, l, S, bad>>
 Ev == Cases[k].events
 HasTrace == Len(Ev) > 0
-Init == k \in 1..Len(Cases) /\ l = 1 /\ S = Begin(Fresh, Cases[k].s, Cases[k].base) /\ bad = ""
+Init == k \in 1..Len(Cases) /\ l = 1 /\ S = BeginAt(Fresh, Cases[k].s, Cases[k].rawbase, Cases[k].base) /\ bad = ""
 
 Running == S.res = None
 CurA == Instr(S).a
